@@ -52,7 +52,7 @@ def tasks(tier):
     t.append((M, "ms_parity", dict(norb_max=5)))
     # one-particle density matrices (exact orthonormal orbitals; NOCI symbolic)
     for k, n, a, b, cplx in [("rhf", 3, 1, 1, False), ("rhf", 3, 1, 1, True), ("uhf", 3, 2, 1, False), ("uhf", 3, 2, 1, True), ("uhf", 2, 1, 0, False),
-                             ("ghf", 2, 1, 1, False), ("ghf", 3, 2, 1, False), ("noci", 2, 1, 1, False)]:
+                             ("ghf", 2, 1, 1, False), ("ghf", 2, 1, 1, True), ("ghf", 3, 2, 1, False), ("noci", 2, 1, 1, False)]:
         t.append((W, "rdm_true", dict(kind=k, norb=n, nu=a, nd=b, complex_orbitals=cplx)))
     for w in ("overlap", "conj"):
         t.append((W, "canary", dict(which=w)))
